@@ -32,7 +32,7 @@ def to_model(e):
             fm = to_model(f)
         return {'t': 'tasklet', 'base': to_model(e.base), 'f': fm}
     if isinstance(e, _getitem):
-        return {'t': 'getitem', 'idx': to_model(e.slice)}
+        return {'t': 'hashed', 'v': to_model(('jug.task._getitem', e.slice))}
     if isinstance(e, mapreduce.block_access):
         return {'t': 'hashed', 'v': to_model({'type': 'map-access', 'len': e.len, 'blocks': e.blocks, 'block_size': e.block_size})}
     if isinstance(e, mapreduce.block_access_slice):
@@ -231,7 +231,7 @@ def build(spec, order_rng):
             return base[idx[1]:idx[2]]
         if idx[0] == 'lambda':
             from jug.task import Tasklet
-            return Tasklet(base, (lambda x: x + 1) if idx[1] == 1 else (lambda x: x * 3 - 2))
+            return Tasklet(base, (lambda x: x + 1) if idx[1] == 1 else (lambda x: x + 2))
         return base[build(idx, order_rng)]
     if k == 'custom':
         from jug.utils import CustomHash
